@@ -352,6 +352,7 @@ type constMap struct {
 	vals   map[string][]constant.Value // key (ExactString) -> the value, or the struct value's fields in order
 	zero   []constant.Value            // the zero value (per field); nil entries for fields without a scalar zero
 	fields int                         // 0: scalar values; n>0: struct values with n fields
+	set    bool                        // map[K]struct{}
 }
 
 var constMapCache sync.Map // *ssa.Global -> *constMap (nil when the variable is not a constant table)
@@ -423,7 +424,9 @@ func buildConstMap(g *ssa.Global) *constMap {
 		return nil
 	}
 	cm := &constMap{g: g, vals: map[string][]constant.Value{}}
-	if st, ok := mt.Elem().Underlying().(*types.Struct); ok {
+	if st, ok := mt.Elem().Underlying().(*types.Struct); ok && st.NumFields() == 0 {
+		cm.set = true // map[K]struct{}: only membership matters
+	} else if ok {
 		cm.fields = st.NumFields()
 		for i := 0; i < st.NumFields(); i++ {
 			cm.zero = append(cm.zero, zeroConst(st.Field(i).Type()))
@@ -506,7 +509,9 @@ func buildConstMap(g *ssa.Global) *constMap {
 				return nil
 			}
 			var val []constant.Value
-			if cm.fields == 0 {
+			if cm.set {
+				val = []constant.Value{}
+			} else if cm.fields == 0 {
 				v := constOrZero(x.Value)
 				if v == nil {
 					return nil
